@@ -193,6 +193,16 @@ type SessionResult struct {
 	FinalObs *Obs
 }
 
+// rangeHit reports whether the DeleteRange op actually removed something according to the model history
+// (models[len-2] is the state before it, models[len-1] after).
+func rangeHit(models []*Model, op Op) bool {
+	if len(models) < 2 {
+		return false
+	}
+	before, after := models[len(models)-2], models[len(models)-1]
+	return before.First != after.First || before.Last != after.Last
+}
+
 // SessionOpts controls RunSession.
 type SessionOpts struct {
 	ObserveEach bool // observe after every op and compare with the model (attributed to prop CmpProp)
@@ -261,6 +271,7 @@ func RunSession(st *simdisk.State, cfg Config, ops []Op, so SessionOpts) *Sessio
 		m := ModelFromObs(o, so.Base)
 		r.Models = append(r.Models, m)
 		prevListed, _ := ExpectedListing(sys.MetaRaw())
+		prevMeta, _ := DecodeMeta(sys.MetaRaw())
 		for i, op := range ops {
 			nm := m.Clone()
 			reject := ApplyModel(nm, op)
@@ -327,6 +338,26 @@ func RunSession(st *simdisk.State, cfg Config, ops []Op, so SessionOpts) *Sessio
 						}
 					}
 					prevListed = exp
+				}
+				// independent of what the new metadata says: a sealed segment that lay wholly inside the range an
+				// accepted DeleteRange removed must be gone from the directory (no reader is in flight here)
+				if op.K == "D" && err == nil && !reject && op.Min <= op.Max {
+					for k, sg := range prevMeta.Segments {
+						if k == len(prevMeta.Segments)-1 || sg.SealTime.IsZero() || sg.MaxIndex < sg.MinIndex {
+							continue // the tail is handled by the implementation's own bookkeeping clauses above
+						}
+						if sg.MinIndex >= op.Min && sg.MaxIndex <= op.Max && rangeHit(r.Models, op) {
+							name := fmt.Sprintf("%020d-%016x.wal", sg.BaseIndex, sg.ID)
+							for _, h := range ob.Listing {
+								if h == name {
+									r.Viol = append(r.Viol, Violation{Prop: "C13", Msg: fmt.Sprintf("after op %d %s returned, the file %s of a sealed segment holding [%d,%d], wholly inside the deleted range, is still in the directory %v", i+1, op, name, sg.MinIndex, sg.MaxIndex, ob.Listing)})
+								}
+							}
+						}
+					}
+				}
+				if st, e := DecodeMeta(sys.MetaRaw()); e == nil {
+					prevMeta = st
 				}
 			}
 		}
